@@ -21,6 +21,10 @@ type c08Params struct {
 	// Limiter: the rate limiter is enabled as well (with a burst no history exhausts): the
 	// breaker must recover whatever else sits in front of it
 	Limiter bool `json:",omitempty"`
+	// SlowProbe: the recovery script is made of requests that each take longer than the timeout
+	// and overlap (a backend that has recovered but is slow, under steady traffic): they all
+	// succeed, so the breaker has to close after a bounded number of them all the same
+	SlowProbe bool `json:",omitempty"`
 }
 
 // start-held / finish-held-*: a request is kept in flight at the backend while other requests
@@ -130,6 +134,9 @@ func (in *c08Inst) Probe() *vh.HViol {
 	if wait > 0 {
 		in.s.AdvanceQuiet(wait)
 	}
+	if in.p.SlowProbe {
+		return in.slowProbe()
+	}
 	budget := in.p.ST + in.p.MR + 2
 	cfg := fmt.Sprintf("failure_threshold=%d success_threshold=%d max_requests=%d interval=%ds timeout=%ds", in.p.FT, in.p.ST, in.p.MR, in.p.Interval, in.p.Timeout)
 	var seq []int
@@ -150,6 +157,48 @@ func (in *c08Inst) Probe() *vh.HViol {
 	return nil
 }
 
+// slowProbe: see c08Params.SlowProbe. Every 1.1 x timeout a new request arrives and the one that
+// arrived before it ends successfully; a request that is turned away just ends.
+func (in *c08Inst) slowProbe() *vh.HViol {
+	step := time.Duration(1.1 * float64(in.p.Timeout) * float64(time.Second))
+	var pending *held
+	served, turnedAway := 0, 0
+	rounds := 2*(in.p.ST+in.p.MR) + 4
+	for i := 0; i < rounds; i++ {
+		h := in.k.startHeld(fmt.Sprintf("10.0.1.%d", i))
+		in.s.AdvanceQuiet(step)
+		if pending != nil {
+			in.k.release(pending.at)
+			if !pending.done {
+				return &vh.HViol{Key: "C08/held-request-never-returned", What: "a request released at its backend never returned"}
+			}
+			if pending.res.Status == 200 {
+				served++
+			}
+			pending = nil
+			// "a bounded number of successful requests": with the traffic still going on, the
+			// breaker is closed once success_threshold + max_requests requests have succeeded
+			if served >= in.p.ST+in.p.MR && in.k.lb.circuitBreaker.State() != circuitbreaker.StateClosed {
+				return &vh.HViol{Key: "C08/no-recovery/slow-successful-requests", What: fmt.Sprintf("failure_threshold=%d success_threshold=%d max_requests=%d interval=%ds timeout=%ds: the backend is healthy again but slow (every request takes 1.1 x timeout) and requests keep arriving every 1.1 x timeout: %d requests have been answered successfully, %d were turned away, and the breaker is still %s", in.p.FT, in.p.ST, in.p.MR, in.p.Interval, in.p.Timeout, served, turnedAway, in.k.lb.circuitBreaker.State())}
+			}
+		}
+		if h.at != nil && !h.done {
+			pending = h
+		} else {
+			turnedAway++
+		}
+	}
+	if pending != nil {
+		in.k.release(pending.at)
+		served++
+	}
+	last := in.k.request("10.0.0.1", nil)
+	if last.Status != 200 || in.k.lb.circuitBreaker.State() != circuitbreaker.StateClosed {
+		return &vh.HViol{Key: "C08/no-recovery/slow-successful-requests", What: fmt.Sprintf("failure_threshold=%d success_threshold=%d max_requests=%d interval=%ds timeout=%ds: the backend is healthy again but slow (every request takes 1.1 x timeout) and requests keep arriving every 1.1 x timeout: %d requests have been answered successfully, %d were turned away, and the breaker is still %s (last request: %d)", in.p.FT, in.p.ST, in.p.MR, in.p.Interval, in.p.Timeout, served, turnedAway, in.k.lb.circuitBreaker.State(), last.Status)}
+	}
+	return nil
+}
+
 func c08Spec(p c08Params, depth int) vh.HSpec {
 	maxD := time.Duration(p.Interval) * time.Second
 	if t := time.Duration(p.Timeout) * time.Second; t > maxD {
@@ -157,7 +206,7 @@ func c08Spec(p c08Params, depth int) vh.HSpec {
 	}
 	maxD += 300 * time.Millisecond
 	return vh.HSpec{
-		Name: fmt.Sprintf("breaker-live-ft%d-st%d-mr%d-i%d-t%d%s", p.FT, p.ST, p.MR, p.Interval, p.Timeout, map[bool]string{true: "-with-rate-limiter"}[p.Limiter]), Events: c08Events, Depth: depth, Params: p, KeyPrefix: "C08/state-change",
+		Name: fmt.Sprintf("breaker-live-ft%d-st%d-mr%d-i%d-t%d%s", p.FT, p.ST, p.MR, p.Interval, p.Timeout, map[bool]string{true: "-with-rate-limiter"}[p.Limiter]+map[bool]string{true: "-slow-recovery"}[p.SlowProbe]), Events: c08Events, Depth: depth, Params: p, KeyPrefix: "C08/state-change",
 		New: func(s *vrt.Sched) vh.HInstance {
 			o := kitOpts{N: 1, Breaker: &config.CircuitBreakerConfig{Enabled: true, MaxRequests: p.MR, IntervalSeconds: p.Interval,
 				TimeoutSeconds: p.Timeout, FailureThreshold: p.FT, SuccessThreshold: p.ST}}
@@ -209,6 +258,11 @@ func c08Configs() []c08Params {
 				}
 			}
 		}
+	}
+	// the recovery script made of slow overlapping successes (configurations whose trial budget
+	// covers the success threshold)
+	for _, c := range [][3]int{{1, 1, 1}, {2, 1, 1}, {1, 2, 2}, {1, 1, 2}, {2, 2, 3}} {
+		out = append(out, c08Params{FT: c[0], ST: c[1], MR: c[2], Interval: 1, Timeout: 2, SlowProbe: true})
 	}
 	return out
 }
